@@ -47,12 +47,13 @@ type c11H struct {
 	pools [schedx.MaxThreads]dyn.Pool
 	fails [schedx.MaxThreads][]string
 	// written and read across threads: only in norace functions
-	hold   [schedx.MaxThreads]unsafe.Pointer
-	cycle  [schedx.MaxThreads]int
-	nfail  [schedx.MaxThreads]int
-	known  [64]unsafe.Pointer
-	kbuf   [64]dyn.Buf
-	nknown int
+	hold     [schedx.MaxThreads]unsafe.Pointer
+	cycle    [schedx.MaxThreads]int
+	nfail    [schedx.MaxThreads]int
+	known    [64]unsafe.Pointer
+	kbuf     [64]dyn.Buf
+	nknown   int
+	initFail string
 }
 
 func (h *c11H) Threads() int { return h.cfg.G }
@@ -61,8 +62,11 @@ func (h *c11H) Init() {
 	poolctl.ResetSched()
 	h.resetShared()
 	p := dyn.NewPool(h.t, al(h.cfg.C, h.cfg.L, h.cfg.K))
+	h.initFail = ""
 	if h.cfg.Warm {
-		p.Put(p.Get())
+		if pn, msg := dyn.Try(func() { p.Put(p.Get()) }); pn {
+			h.initFail = "the warm-up Get/Put on the fresh allocator panicked: " + msg
+		}
 	}
 	for i := 0; i < h.cfg.G; i++ {
 		h.fails[i] = nil
@@ -169,6 +173,9 @@ func (h *c11H) Run(id int) {
 
 func (h *c11H) Finish() []string {
 	var r []string
+	if h.initFail != "" {
+		r = append(r, h.initFail)
+	}
 	for i := 0; i < h.cfg.G; i++ {
 		r = append(r, h.fails[i]...)
 	}
@@ -228,7 +235,7 @@ func c11Configs(tier string, race bool) []c11Cfg {
 		t       string
 		C, L, K int
 	}
-	shapes := []sh{{"int8", 1, 0, 2}, {"float64", 2, 1, 2}}
+	shapes := []sh{{"int8", 1, 0, 2}, {"float64", 2, 1, 2}, {"int16", 2, 0, 0}}
 	add := func(G, M, bound, envCost int) {
 		for _, s := range shapes {
 			for _, bv := range []bool{false, true} {
@@ -314,7 +321,7 @@ func c11Key(msg string) string {
 		return "Pool/fresh-nonzero"
 	case contains(msg, "storage shared"):
 		return "Pool/overlapping-storage"
-	case contains(msg, "deadlock"):
+	case contains(msg, "deadlock"), contains(msg, "warm-up"):
 		return "Pool/deadlock"
 	case contains(msg, "panicked"):
 		return "Pool/panic"
